@@ -189,6 +189,14 @@ def gen_case(rng: random.Random, tier: str):
         if r < 0.3 and tds:
             f = rng.choice(tds)
             target = f["alias_of"]
+            later = [g for g in tds if g["alias_of"] == f["names"][0]]
+            if later and rng.random() < 0.5:
+                # the other direction: an alias OF this name is the same type too (typedef A B; ... typedef B A;)
+                g = rng.choice(later)
+                target = g["names"][0]
+                alias_ops.append({"op": "redeclare_same", "pos": len(cuts) + 1, "name": f["names"][0], "target": target, "frag": frags.index(g),
+                                  "via": rng.choice(["load", "add_type_str", "add_type_obj"])})
+                continue
             if f.get("base") in SYN and rng.random() < 0.6:
                 target = rng.choice(SYN[f["base"]])  # another spelling of the very same type
             alias_ops.append({"op": "redeclare_same", "pos": pos, "name": f["names"][0], "target": target, "frag": frags.index(f),
@@ -201,8 +209,10 @@ def gen_case(rng: random.Random, tier: str):
             alias_ops.append({"op": "cycle", "pos": pos, "len": rng.randint(1, 4), "use": rng.choice(["resolve", "attr", "field", "sizeof"])})
         elif r < 0.9:
             alias_ops.append({"op": "dangling", "pos": pos, "hops": rng.randint(0, 3), "use": rng.choice(["resolve", "attr", "field"])})
-        else:
+        elif r < 0.95:
             alias_ops.append({"op": "long_chain", "pos": pos, "len": rng.randint(2, 12)})
+        else:
+            alias_ops.append({"op": "typedef_chain", "pos": pos, "len": rng.randint(3, 14), "base": rng.choice(["uint16", "char", "DWORD", "int48"])})
     for _ in range(rng.randint(0, 2)):
         # an unrelated definition loaded with OTHER parser options between the groups: options belong to one load() call
         alias_ops.append({"op": "foreign_load", "pos": rng.randint(0, len(cuts) + 1), "align": rng.random() < 0.5, "compiled": rng.random() < 0.5,
@@ -346,6 +356,19 @@ def run_history(case, perturbed, stats):
                         raise Violation("alias", "other_target_accepted", f"{text!r} silently re-bound an existing alias to another type")
                     if dict(cs.typedefs) != before:
                         raise Violation("alias", "table_changed_by_rejected_redeclaration", text)
+            elif k == "typedef_chain":
+                # a chain of plain typedefs written in the definition language: every link is the very same type
+                names = [f"tc{pos}_{opi}_{i}" for i in range(op["len"])]
+                text = "".join(f"typedef {names[i - 1] if i else op['base']} {names[i]};\n" for i in range(len(names)))
+                try:
+                    cs.load(text)
+                    got = [cs.resolve(nm_) for nm_ in names]
+                except Exception as e:  # noqa: BLE001
+                    raise Violation("alias", "typedef_chain_does_not_resolve", f"{text!r}: {type(e).__name__}: {e}")
+                if any(g is not cs.resolve(op["base"]) for g in got):
+                    raise Violation("alias", "typedef_chain_not_same_type", f"{text!r}: links resolve to {[getattr(g, '__name__', g) for g in got]}")
+                for nm_ in names:
+                    cs.typedefs.pop(nm_, None)
             elif k == "foreign_load":
                 body = " ".join(f"uint{8 * (1 << j)} q{j};" for j in range(op["n"]))
                 nmz = f"Zz{pos}_{opi}"
